@@ -265,6 +265,22 @@ func (w *world) runBatch(r *vh.RNG, first, n int) {
 			t.Events[mRecheck] = eventTypes(res.Events)
 		})
 	}
+	// 3b. re-check mode for what CheckTx refused (after the real re-checks, so that the check state they saw is
+	// the one a node would have): decided for must-reject shapes only
+	for _, t := range cases {
+		if t.Code[mCheck] <= 0 {
+			continue
+		}
+		t := t
+		guard("recheck-unadmitted", t, func() {
+			res, err := c.App.CheckTx(&abci.RequestCheckTx{Tx: t.Tx, Type: abci.CheckTxType_Recheck})
+			if err != nil {
+				t.CodeRU, t.LogRU = 1, err.Error()
+				return
+			}
+			t.CodeRU, t.LogRU = int64(res.Code), res.Log
+		})
+	}
 	// 4. proposal handlers (crash-freedom only)
 	txs := make([][]byte, len(cases))
 	for i, t := range cases {
@@ -369,6 +385,25 @@ func (w *world) judge(t *tcase, ob *vh.ObservedBlock, i int, fail func(string, *
 			if t.Code[m] == 0 {
 				fail("must-reject-accepted:"+v.Class()+":mode="+modeName[m], t, wit(nil))
 			}
+		}
+		// The envelope rules of 03_validate_basic (signatures, signer infos, fee payer / granter, fee and gas equal to
+		// the embedded transaction) are stateless validation, which the tree - like the SDK's ValidateBasicDecorator -
+		// deliberately does not repeat on re-check; a node never re-checks what it did not admit, so a shape whose
+		// only defects are of that kind is not judged here. Every other rule is its own decorator and holds in every mode.
+		statelessOnly := true
+		for _, rs := range v.Reasons {
+			switch rs {
+			case "ethshape-signatures", "ethshape-signer-infos", "ethshape-payer", "ethshape-granter", "ethshape-fee-mismatch", "ethshape-gas-mismatch":
+			default:
+				statelessOnly = false
+			}
+		}
+		if statelessOnly {
+			run.Count("recheck_of_unadmitted_not_judged_stateless_envelope_rules_only", 1)
+		} else if t.CodeRU == 0 {
+			fail("must-reject-accepted:"+v.Class()+":mode=recheck-of-unadmitted", t, wit(map[string]any{"check_log": t.Log[mCheck]}))
+		} else if t.CodeRU > 0 {
+			run.Count("must_reject_refused_in_recheck_mode_too", 1)
 		}
 		// evidence of non-vacuity: refused because of the shape
 		attributed := false
